@@ -320,6 +320,11 @@ func c09Exchange(t *testing.T, m *Model, v *Verdict, rng *RNG, c repCase, preaut
 		err := cl.Login()
 		if !c.tgs {
 			goRes = classifyExchangeErr(err)
+			if err != nil {
+				if _, _, held := cl.GetCachedTicket("krbtgt/" + c09Realm); held {
+					goRes = "refused-but-cached " + goRes
+				}
+			}
 			return
 		}
 		if err != nil {
@@ -330,6 +335,9 @@ func c09Exchange(t *testing.T, m *Model, v *Verdict, rng *RNG, c repCase, preaut
 		goRes = classifyExchangeErr(err)
 		if err == nil {
 			goRes = fmt.Sprintf("ok %d %s", key.KeyType, X(key.KeyValue))
+		} else if _, _, held := cl.GetCachedTicket("HTTP/host.test.gokrb5"); held {
+			// a reply that was refused leaves nothing behind: the next request must not be served from it
+			goRes = "refused-but-cached " + goRes
 		}
 	}); p != "" {
 		goRes = "panic " + p
@@ -396,6 +404,9 @@ func c09Defects() []repDefect {
 			c.reqAddrs = []types.HostAddress{v4}
 			c.encCAddr = []types.HostAddress{v4, v6}
 		}},
+		{"nonce+2^32", false, func(c *repCase, r *RNG) { c.encNonceOff = 1 << 32 }},
+		{"nonce-2^32", false, func(c *repCase, r *RNG) { c.encNonceOff = -(1 << 32) }},
+		{"nonce+3*2^32", false, func(c *repCase, r *RNG) { c.encNonceOff = 3 << 32 }},
 		{"caddr-unasked", false, func(c *repCase, r *RNG) { c.encCAddr = []types.HostAddress{v4} }},
 		{"auth=+skew", false, func(c *repCase, r *RNG) { c.authOff = c.skew; c.startOff = c.skew }},
 		{"auth=+skew+1s", false, func(c *repCase, r *RNG) { c.authOff = c.skew + time.Second; c.startOff = c.skew + time.Second }},
